@@ -381,6 +381,9 @@ func C14(tier string) int {
 		}
 	}
 	third := known[names[2]]
+	if third == "" {
+		third = "ActivityStreams/Place" // no further vocabulary loaded
+	}
 	cbSets := [][]string{{}, {"ActivityStreams/Note"}, {"ActivityStreams/Person"}, {third}, {"ActivityStreams/Person", "ActivityStreams/Note"}, {third, "ActivityStreams/Note", "ActivityStreams/Person"}}
 	for _, arr := range arrays {
 		own := ""
